@@ -126,25 +126,34 @@ Proof.
   cbn [bits label_of hd fst snd]. destruct (qleb (dot r x) b); cbn; auto.
 Qed.
 
-(* ---- embedding of (binary) ptrees: fresh nodes, index 0, no cached state ---- *)
-Fixpoint cof (t : ptree) : ctree :=
+(* ---- embedding of (binary) ptrees: fresh nodes without cached state; the root gets arena index 0 (the root's
+        index in every AffTree), every other node the dummy index 1 (any non-zero value: is_edge_feasible treats
+        edges below index 0 specially) ---- *)
+Fixpoint cof_at (i : nat) (t : ptree) : ctree :=
   match t with
   | U => CU
-  | T f => CN 0 true f Indet CU CU
-  | D p (l0 :: l1 :: nil) => CN 0 false p Indet (cof l0) (cof l1)
+  | T f => CN i true f Indet CU CU
+  | D p (l0 :: l1 :: nil) => CN i false p Indet (cof_at 1 l0) (cof_at 1 l1)
   | D _ _ => CU
   end.
-Lemma c_exists_cof t : pshape t -> c_exists (cof t) = pexists t.
+Definition cof (t : ptree) : ctree := cof_at 0 t.
+Lemma c_exists_cof_at i t : pshape t -> c_exists (cof_at i t) = pexists t.
 Proof. destruct 1; reflexivity. Qed.
-Lemma erase_cof t : pshape t -> erase (cof t) = t.
-Proof. induction 1 as [| f | p l0 l1 He H0 IH0 H1 IH1]; cbn [cof erase]; congruence. Qed.
-Lemma cleafok_cof t : cleafok (cof t).
+Lemma erase_cof_at t : pshape t -> forall i, erase (cof_at i t) = t.
+Proof. induction 1 as [| f | p l0 l1 He H0 IH0 H1 IH1]; intros i; cbn [cof_at erase]; auto. rewrite IH0, IH1. reflexivity. Qed.
+Lemma cleafok_cof_at t : forall i, cleafok (cof_at i t).
 Proof.
-  induction t as [| f | p ch IH] using ptree_ind'; cbn [cof]; try constructor.
+  induction t as [| f | p ch IH] using ptree_ind'; intros i; cbn [cof_at]; try constructor.
   destruct ch as [|l0 [|l1 [|l2 ch]]]; try constructor.
-  - apply Forall_cons_iff in IH as [I0 _]. exact I0.
-  - apply Forall_cons_iff in IH as [_ IH]. apply Forall_cons_iff in IH as [I1 _]. exact I1.
+  - apply Forall_cons_iff in IH as [I0 _]. apply I0.
+  - apply Forall_cons_iff in IH as [_ IH]. apply Forall_cons_iff in IH as [I1 _]. apply I1.
 Qed.
+Lemma c_exists_cof t : pshape t -> c_exists (cof t) = pexists t.
+Proof. apply c_exists_cof_at. Qed.
+Lemma erase_cof t : pshape t -> erase (cof t) = t.
+Proof. intros H. apply erase_cof_at. exact H. Qed.
+Lemma cleafok_cof t : cleafok (cof t).
+Proof. apply cleafok_cof_at. Qed.
 Theorem cwf_cof n m t : pwf n m t -> cwf n m (cof t).
 Proof.
   intros H. apply cwf_erase. split; [apply cleafok_cof|]. rewrite erase_cof; auto. apply H.
